@@ -77,11 +77,19 @@ class CasGen:
                 sup = "uima.cas.String"
             else:
                 cands = ["uima.tcas.Annotation", "uima.tcas.Annotation", "uima.cas.TOP"] + [m for m in self.order if m != "x.Str"]
+                if rng.random() < 0.12:
+                    cands = ["uima.cas.AnnotationBase"]
                 sup = rng.choice(cands)
             self.sb.create_type(self.ts, n, sup)
             self.types[n] = {"super": sup, "feats": {}}
             self.order.append(n)
         struct = [n for n in self.order if n != "x.Str"]
+        for n in struct:
+            if self.types[n]["super"] == "uima.cas.AnnotationBase":
+                for fname in ("begin", "end"):
+                    spec = {"name": fname, "kind": "prim", "range": "uima.cas.Integer", "py": fname, "span": True}
+                    self.types[n]["feats"][fname] = spec
+                    self.sb.create_feature(self.ts, n, fname, "uima.cas.Integer")
         for n in struct:
             taken = set(self.eff_feats(n))
             for _ in range(rng.randint(1, 5)):
@@ -116,6 +124,9 @@ class CasGen:
             r = rng.choice(PRIMS + (["x.Str"] if "x.Str" in self.types else []))
             return {"name": base, "kind": "prim", "range": r}
         if kind == "ref":
+            if rng.random() < 0.15:
+                return {"name": base, "kind": "ref", "range": rng.choice(["uima.cas.NonEmptyFSList", "uima.cas.ListBase", "uima.cas.ArrayBase", "uima.cas.EmptyFSList"]),
+                        "node": True}
             return {"name": base, "kind": "ref", "range": rng.choice(struct + ["uima.tcas.Annotation", "uima.cas.TOP"])}
         if kind == "fsarray":
             return {"name": base, "kind": "fsarray", "range": "uima.cas.FSArray", "multi": multi,
@@ -124,7 +135,8 @@ class CasGen:
             r = rng.choice(sorted(PRIM_ARRAYS))
             return {"name": base, "kind": "primarray", "range": r, "multi": multi, "ek": PRIM_ARRAYS[r]}
         if kind == "fslist":
-            return {"name": base, "kind": "fslist", "range": "uima.cas.FSList", "multi": multi}
+            return {"name": base, "kind": "fslist", "range": "uima.cas.FSList", "multi": multi,
+                    "elem": rng.choice([None, None] + struct)}
         r = rng.choice(sorted(PRIM_LISTS))
         return {"name": base, "kind": "primlist", "range": r, "multi": multi, "ek": PRIM_LISTS[r]}
 
@@ -189,13 +201,20 @@ class CasGen:
         rng = self.rng
         struct = self.make_types()
         t0 = rng.choice(TEXTS)
-        h0 = self.sb.cas_new(self.ts, lenient=self.lenient, text=t0)
+        if rng.random() < 0.25:
+            # the text is replaced before anything is added: the offset mapping must follow the current text
+            h0 = self.sb.cas_new(self.ts, lenient=self.lenient, text=TEXTS[1])
+            self.sb.op(op="cas.sofa_set", h=h0, field="string", v=[ord(c) for c in t0])
+        else:
+            h0 = self.sb.cas_new(self.ts, lenient=self.lenient, text=t0)
         self.views["_InitialView"] = h0
         self.view_text["_InitialView"] = t0
         for k in range(rng.randint(0, self.max_views - 1)):
             name = "view%d" % (k + 2)
             h = self.sb.create_view(h0, name)
             t = rng.choice(TEXTS)
+            if rng.random() < 0.25:
+                self.sb.op(op="cas.sofa_set", h=h, field="string", v=[ord(c) for c in TEXTS[1]])
             self.sb.op(op="cas.sofa_set", h=h, field="string", v=[ord(c) for c in t])
             self.sb.op(op="cas.sofa_set", h=h, field="mime", v="text/plain")
             self.views[name] = h
@@ -215,7 +234,9 @@ class CasGen:
             else:
                 be = (None, None)
             for pn, spec in self.eff_feats(t).items():
-                if spec["kind"] == "prim" and rng.random() < 0.8:
+                if spec.get("span"):
+                    feats[pn] = rng.randint(0, 12)
+                elif spec["kind"] == "prim" and rng.random() < 0.8:
                     feats[pn] = self.prim_value(spec["range"])
             l = self.sb.fs_new(self.ts, t, feats)
             self.fs[l] = {"type": t, "view": vname, "main": True, "b": be[0], "e": be[1]}
@@ -229,7 +250,17 @@ class CasGen:
                 if k == "prim" or rng.random() < 0.25:
                     continue
                 multi = bool(spec.get("multi"))
-                if k == "ref":
+                if k == "ref" and spec.get("node"):
+                    # a plain reference to a list node / array object: the target is a structure of its own
+                    r = spec["range"]
+                    if r == "uima.cas.ArrayBase":
+                        tgt = self.new_fs_array([rng.choice(mains) for _ in range(rng.randint(0, 2))])
+                    elif r == "uima.cas.EmptyFSList":
+                        tgt = self.new_list("fs", [])
+                    else:
+                        tgt = self.new_list("fs", [rng.choice(mains) for _ in range(rng.randint(1, 2))])
+                    self.sb.op(op="fs.set", fs=l, path=pn, v={"r": tgt})
+                elif k == "ref":
                     cands = [m for m in mains if self.compatible(self.fs[m]["type"], spec["range"])]
                     if cands:
                         self.sb.op(op="fs.set", fs=l, path=pn, v={"r": rng.choice(cands)})
@@ -276,6 +307,16 @@ class CasGen:
                 self.sb.op(op="cas.add", h=self.views[vname], fs=l)
                 self.fs[l]["indexed"] = True
                 indexed.append(l)
+                others = [v for v in self.views if v != vname]
+                if others and rng.random() < 0.15:
+                    v2 = rng.choice(others)
+                    key2 = (v2, self.fs[l]["type"], self.fs[l].get("b"), self.fs[l].get("e"))
+                    L2 = len(self.view_text[v2])
+                    if key2 not in keys and (self.fs[l].get("e") is None or self.fs[l]["e"] <= L2):
+                        # indexed in two views: an annotation then carries the sofa of the view it was added to last
+                        keys.add(key2)
+                        self.sb.op(op="cas.add", h=self.views[v2], fs=l)
+                        self.fs[l]["view2"] = v2
             elif self.is_annotation(self.fs[l]["type"]):
                 self.sb.op(op="fs.set", fs=l, path="sofa", v={"sofa": [0, vname]})
         self.mains = mains
